@@ -37,7 +37,8 @@ cJSON *g_tree(grng *r, int depth, int distinct_keys)
     case 0: return cJSON_CreateNull();
     case 1: return cJSON_CreateBool((int)g_below(r, 2));
     case 2: case 3: return cJSON_CreateNumber(NUMS[g_below(r, sizeof NUMS / sizeof NUMS[0])]);
-    case 4: case 5: g_string(r, buf, sizeof buf); return cJSON_CreateString(buf);
+    case 4: g_string(r, buf, sizeof buf); return cJSON_CreateString(buf);
+    case 5: return g_below(r, 2) ? cJSON_CreateStringReference(KEYS[g_below(r, 12)]) : cJSON_CreateRaw("[1, 2]");   /* borrowed text; raw */
     case 6: case 7: {
         cJSON *a = cJSON_CreateArray();
         unsigned n = g_below(r, 5), i;
@@ -51,7 +52,8 @@ cJSON *g_tree(grng *r, int depth, int distinct_keys)
         for (i = 0; o && i < n; i++) {
             const char *key = KEYS[(start + i * (distinct_keys ? 1 : g_below(r, 3))) % 12];
             if (distinct_keys && cJSON_GetObjectItemCaseSensitive(o, key)) continue;
-            cJSON_AddItemToObject(o, key, g_tree(r, depth + 1, distinct_keys));
+            if (g_below(r, 4) == 0) cJSON_AddItemToObjectCS(o, key, g_tree(r, depth + 1, distinct_keys));   /* constant key (static storage) */
+            else cJSON_AddItemToObject(o, key, g_tree(r, depth + 1, distinct_keys));
         }
         return o;
     }
